@@ -6,7 +6,7 @@ Proof: coq/Properties_C20.v.  The encoder facts (UTF-8, UTF-16) and three
        text, and everything about strings (any neighbours, any number of escapes)
        are symbolic / by induction.
 Tie:   gen/Tables_uni.v (digit and JSON notation characters of the current headers)
-       + the real Unicode::ToUTF (3 widths) on ALL 1,112,064 scalar values and the
+       + the real Unicode::ToUTF (char, char16_t, char32_t, wchar_t) on ALL 1,112,064 scalar values and the
        real JSON::Parse of ["\\uXXXX"] / ["\\uD8xx\\uDCxx"] on ALL of them (lower, upper,
        mixed case with neighbours), compared with the extracted model and judged by
        the extracted specification oracle (cpp/drv_uni.cpp, ocaml/uni.ml).
@@ -20,7 +20,8 @@ point (phase from the seed) and on all range boundaries +-2.
 Thorough tier: the extracted model and oracle run on every code point as well.
 
 Model = code with /verif/findings/D11_high_surrogate_range.patch and
-D92_lone_high_surrogate_swallows_quote.patch applied (a high surrogate joins only with a
+D92_lone_high_surrogate_swallows_quote.patch and D93_short_hex_escape_accepted.patch applied
+(every \\uXXXX group needs four hexadecimal digits; a high surrogate joins only with a
 following \\u / \\U escape; otherwise the parse fails)."""
 import json
 import os
@@ -32,7 +33,9 @@ from vlib import fmt_list, parse_list
 
 PROP = "C20"
 COMP = "uni"
-WIDTHS = (1, 2, 4)
+WIDTHS = (1, 2, 4, 5)      # character kinds: char, char16_t, char32_t (= sizeof), 5 = wchar_t (encoder by sizeof(wchar_t))
+TOPS = {1: 0xFF, 2: 0xFFFF, 4: 0x10FFFF, 5: 0x10FFFF}   # TOPS[5] is set from gen/Tables_uni.v (uni_sizeof_wc)
+NW = len(WIDTHS)
 TOP = 0x110000
 BLOCK = 4096
 LOWER, UPPER = 0, 15
@@ -80,7 +83,7 @@ def corpus_cases():
 
 def plain_units(rng, w, n):
     """neighbours: units that UnEscape copies (no quote, backslash, LF, TAB, CR), valid for the width"""
-    top = {1: 0xFF, 2: 0xFFFF, 4: 0x10FFFF}[w]
+    top = TOPS[w]
     out = []
     while len(out) < n:
         r = rng.random()
@@ -96,30 +99,60 @@ def plain_units(rng, w, n):
     return out
 
 
+NONHEX = [71, 103, 122, 32, 47, 58, 64, 96, 45, 120]      # G g z space / : @ ` - x
+
+
 def raw_surrogate_cases(rng, n):
-    """T cases (model / implementation agreement, outside the property): a high surrogate escape
-    followed by 0..8 ordinary units or by another kind of escape (parse fails since D92), by
-    \\u / \\U and four arbitrary units (still taken as a pair, the value of the low half is not
-    checked), or standing at the end of the text"""
+    """T cases (model / implementation agreement, outside the property):
+    D92 -- a high surrogate escape followed by 0..8 ordinary units or by another kind of escape
+    (fails), by \\u / \\U and four arbitrary units (a pair if the four are hexadecimal digits --
+    whatever their value -- else fails), or standing at the end of the text;
+    D93 -- an escape whose group has only 0..3 hexadecimal digits before a unit that is not
+    one (or before the end of the text), as a single escape, as the first and as the second
+    half of a pair (fails)"""
     out = []
+
+    def hexdigits(k):
+        return [rng.choice([48, 49, 57, 65, 70, 97, 102, 100, 68, 56]) for _ in range(k)]
+
+    def short_group():
+        d = rng.randrange(0, 4)
+        return hexdigits(d) + [rng.choice(NONHEX)] + hexdigits(rng.randrange(0, 3))
+
     for _ in range(n):
         w = rng.choice(WIDTHS)
         hi = rng.randrange(0xD800, 0xDC00)
-        esc = [92, rng.choice([117, 117, 85])] + [ord(c) for c in (rng.choice(["%04x", "%04X"]) % hi)]
-        kind = rng.randrange(5)
+        u = lambda: rng.choice([117, 117, 85])
+        esc = [92, u()] + [ord(c) for c in (rng.choice(["%04x", "%04X"]) % hi)]
+        kind = rng.randrange(9)
         if kind == 0:
             tail = plain_units(rng, w, rng.randrange(0, 9))
         elif kind == 1:
             tail = [92, rng.choice([110, 114, 116, 98, 102, 47, 92, 34])] + plain_units(rng, w, rng.randrange(0, 7))
         elif kind == 2:
             four = [rng.choice([48, 57, 65, 70, 97, 102, 71, 103, 32, 45] + plain_units(rng, w, 3)) for _ in range(4)]
-            tail = [92, rng.choice([117, 85])] + four + plain_units(rng, w, rng.randrange(0, 4))
+            tail = [92, u()] + four + plain_units(rng, w, rng.randrange(0, 4))
         elif kind == 3:
             tail = []
-        else:
+        elif kind == 4:
             # one or two units short of a second escape, or u/U without the backslash
             tail = rng.choice([[92], [117], [85, 100, 99, 48, 48], [92, 117], [92, 117, 100], [92, 117, 100, 99, 48],
                                [47, 117, 100, 99, 48, 48], [92, 120, 100, 99, 48, 48]])
+        elif kind == 5:
+            # D93: single escape with a short digit group, then text or the end of the text
+            esc = [92, u()] + (short_group() if rng.random() < 0.7 else hexdigits(rng.randrange(0, 4)))
+            tail = plain_units(rng, w, rng.randrange(0, 5)) if rng.random() < 0.6 else []
+        elif kind == 6:
+            # D93: second half short
+            tail = [92, u()] + (short_group() if rng.random() < 0.7 else hexdigits(rng.randrange(0, 4)))
+            tail += plain_units(rng, w, rng.randrange(0, 5)) if rng.random() < 0.6 else []
+        elif kind == 7:
+            # D93: first half short, a complete second escape behind it
+            esc = [92, u()] + [ord(c) for c in ("%04x" % hi)][:rng.randrange(0, 4)] + [rng.choice(NONHEX)]
+            tail = [92, u()] + [ord(c) for c in "dc00"] + plain_units(rng, w, rng.randrange(0, 3))
+        else:
+            # four hexadecimal digits in the second half, any value: a pair
+            tail = [92, u()] + hexdigits(4) + plain_units(rng, w, rng.randrange(0, 4))
         pre = plain_units(rng, w, rng.randrange(0, 3))
         out.append("T %d %s" % (w, fmt_list(pre + esc + tail)))
     return out
@@ -143,10 +176,16 @@ def check(tier):
         st = vlib.proof_stage(rep, "Properties_C20.v", [COMP], tables=(("Tables_uni", "gentables_uni.cpp"),))
     theorems = st["theorems"]
     proof_ok = st["ok"]
+    try:
+        import re
+        m = re.search(r"uni_sizeof_wc : N := (\d+)", open(os.path.join(vlib.COQ, "gen", "Tables_uni.v")).read())
+        TOPS[5] = {1: 0xFF, 2: 0xFFFF}.get(int(m.group(1)), 0x10FFFF)
+    except Exception:
+        pass
     checker = "cd coq && make Properties_C20.vo  (coqc 8.16.1, full .vo build incl. the UniSweep*.vo sweeps) ; coqc -Q . Qv Properties_C20.v for Print Assumptions"
     tb = vlib.TRUSTED_BASE_COMMON + [
         "tools/gentables_uni.cpp (digit / JSON notation characters of the current headers)",
-        "modelled: Unicode::ToUTF (3 widths), Digit::HexStringToNumber, JSONUtils::UnEscape (complete) and the string case of JSON parseValue; the array wrapper [\"...\"] of the test documents is tied by the differential run only",
+        "modelled: Unicode::ToUTF (3 widths; wchar_t takes the one of its size, gen/Tables_uni.v uni_sizeof_wc), Digit::HexStringToNumber, JSONUtils::UnEscape (complete) and the string case of JSON parseValue; the array wrapper [\"...\"] of the test documents is tied by the differential run only",
         "offsets/lengths < 2^32 (SizeT) assumed in the model of UnEscape",
     ]
 
@@ -167,7 +206,7 @@ def check(tier):
     crashes = 0
     evaluations = 0
 
-    # ---- A. direct encoding: every scalar value, three widths, C++ and extracted model/oracle
+    # ---- A. direct encoding: every scalar value, four character types, C++ and extracted model/oracle
     e_lines = ["R E %d %d %d 1" % (w, lo, min(lo + BLOCK, TOP)) for w in WIDTHS for lo in range(0, TOP, BLOCK)]
     e_impl, e_cr = vlib.run_sharded(exe, [], e_lines, shards=shards)
     crashes += len(e_cr)
@@ -178,7 +217,7 @@ def check(tier):
         return rep.finish()
     fed = [c + " " + (i.split(" ")[0] if i.startswith("CRASH") else i) for c, i in zip(e_lines, e_impl)]
     e_model, _ = vlib.run_sharded(mexe, [], fed, shards=shards)
-    n_e = 3 * (TOP - 2048)
+    n_e = NW * (TOP - 2048)
     dist["encode_exhaustive"] = n_e
     evaluations += n_e
     suspects = []
@@ -301,7 +340,7 @@ def check(tier):
             tk = small.split(" ")
             cp = int(tk[2] if tk[0] == "E" else tk[4])
             rep.violation({"component": "uni", "case": small,
-                           "format": "E <w> <cp>  |  J <w> <k1> <k2> <cp> <pre> <post>  (w = sizeof(Char_T); k = 16:'U', 8..1: upper-case hex digit 1..4)",
+                           "format": "E <w> <cp>  |  J <w> <k1> <k2> <cp> <pre> <post>  (w = character kind: 1 char, 2 char16_t, 4 char32_t, 5 wchar_t; k = 16:'U', 8..1: upper-case hex digit 1..4)",
                            "code_point": "U+%04X" % cp, "observed_impl": i, "model": m,
                            "oracle": "fails: the result is not the standard encoding of the code point (with its neighbours)",
                            "model_agrees_with_impl": tag == "same", "original_case": c,
@@ -330,8 +369,8 @@ def check(tier):
         "trusted_base": tb,
         "theorems": [{"name": n, "assumptions": a} for n, a in theorems],
         "evaluations": evaluations,
-        "distinct_nontrivial": n_e - 3 * 128 + n_j,
-        "rule": "every scalar value (1,112,064) x 3 widths through Unicode::ToUTF, judged by the extracted oracle; every scalar value x 3 widths x {lower, upper, random mixed case with random plain neighbours%s} through JSON::Parse of [\"..\\uXXXX..\"], compared per code point with the oracle-approved direct encoding; extracted model+oracle on %s of the JSON cases plus all encoding-range / surrogate-block boundaries +-2 and seeded random cases; non-trivial = code point >= 0x80 for direct encoding (multi-unit or width-dependent), every JSON escape" % (
+        "distinct_nontrivial": n_e - NW * 128 + n_j,
+        "rule": "every scalar value (1,112,064) x 4 character types (char, char16_t, char32_t, wchar_t) through Unicode::ToUTF, judged by the extracted oracle; every scalar value x 4 character types x {lower, upper, random mixed case with random plain neighbours%s} through JSON::Parse of [\"..\\uXXXX..\"], compared per code point with the oracle-approved direct encoding; extracted model+oracle on %s of the JSON cases plus all encoding-range / surrogate-block boundaries +-2 and seeded random cases; non-trivial = code point >= 0x80 for direct encoding (multi-unit or width-dependent), every JSON escape" % (
             "" if tier == "quick" else ", 2 more mixed configurations", "every code point" if step == 1 else "every 7th code point (phase = seed mod 7)"),
         "samples": [e_lines[0], j_lines[len(j_lines) // 2], singles[-1] if singles else ""],
         "input_distribution": dist,
@@ -339,14 +378,14 @@ def check(tier):
         "oracle_failures": len(r.oracle_fail),
         "model_impl_mismatches": len(r.mismatch),
         "crashes": crashes,
-        "exhaustive_domain": "1112064 scalar values x 3 widths",
+        "exhaustive_domain": "1112064 scalar values x 4 character types (char, char16_t, char32_t, wchar_t)",
         "model_oracle_step": step,
     }
     rep.assumptions = [
         "the theorems are about coq/UniModel.v; the C++ is tied by gen/Tables_uni.v and by the differential run reported here (exhaustive on the property's finite domain on the C++ side)",
-        "character widths: char, char16_t, char32_t on LP64 little-endian (wchar_t uses the 4-byte code path)",
+        "character types: char, char16_t, char32_t and wchar_t (kind 5: the encoder of its size, 4 bytes on LP64) on LP64 little-endian",
         "lone or reversed surrogates and malformed escapes are outside the property (corpus cases check model/implementation agreement only)",
-        "the model describes /repo with findings/D11_high_surrogate_range.patch and D92_lone_high_surrogate_swallows_quote.patch applied",
+        "the model describes /repo with findings/D11_high_surrogate_range.patch, D92_lone_high_surrogate_swallows_quote.patch and D93_short_hex_escape_accepted.patch applied",
     ]
     return rep.finish()
 
